@@ -17,5 +17,5 @@ mkdir -p "$W/replays"
 ( cd "$W" && timeout 2400 ./check "$ID" "$@" ) > /tmp/scratch/seedslot.$SLOT.log 2>&1
 rc=$?
 git -C "$R" checkout -- . ; git -C "$R" clean -fdq
-grep -E "VIOLATION|signature|evaluations=|BUILD-FAILED|INCONCLUSIVE" /tmp/scratch/seedslot.$SLOT.log | head -8
+grep -a -E "VIOLATION|signature|evaluations=|BUILD-FAILED|INCONCLUSIVE" /tmp/scratch/seedslot.$SLOT.log | head -8
 echo "exit=$rc"
